@@ -539,6 +539,15 @@ class Path(object):
             else:
                 raise NotImplementedError('No strategy found for path')
 
+    def __getstate__(self):
+        # The compiled form compares axes and principal types with the module
+        # constants by identity, which does not survive pickling: pickle the
+        # expression itself and compile it again when it is loaded
+        return {'source': self.source}
+
+    def __setstate__(self, state):
+        self.__init__(state['source'])
+
     def __repr__(self):
         paths = []
         for path in self.paths:
